@@ -3,14 +3,14 @@ import os
 import shutil
 import subprocess
 
-from plan import R, D, M, A, V, stages
+from plan import R, D, M, A, V, T, stages
 import fuzzstage
 
 PYTHON = "/usr/bin/python3"     # its hashlib has md5, sha1, sha256, sha512, blake2s and ripemd160
 
 _STAGES = stages(
-    quick=[(R, "quick", 16), (D, "small", 16)],
-    thorough=[(R, "thorough", 16), (D, "quick", 16), (A, "small", 8), (M, "mini", 8), (V, "mini", 2)],
+    quick=[(R, "quick", 16), (D, "small", 16), (T, "small", 16)],
+    thorough=[(R, "thorough", 16), (D, "quick", 16), (T, "quick", 16), (A, "small", 8), (M, "mini", 8), (V, "mini", 2)],
 )
 
 
